@@ -113,6 +113,14 @@ def _track(drops, times, build="append"):
     return tr
 
 
+def ctx_hash_even(spec):
+    """deterministic coin (pure function of the spec): remove a stale file first in half of the cases"""
+    import hashlib
+    import json
+
+    return hashlib.sha256(json.dumps(spec, sort_keys=True).encode()).digest()[0] % 2 == 0
+
+
 def records(obj, kind):
     """canonical content: list of members, each a list of (class name, record bytes); plus times"""
     if kind == "Emulsion":
@@ -131,7 +139,7 @@ class C08(Property):
         "classes with 1-8 amplitudes), dims 1-3, widths None/0/positive, extreme finite parameters (5e-324 ... 1.8e308, negative, -0.0), "
         "0-8 members (time courses and track lists also 10-13 members, beyond one decimal digit of the key) incl. empty collections and empty members in the middle, times = ints up to 2^53 / floats / negative / unordered; "
         "one case in six is heterogeneous (mixed classes - including the two 3-D perturbed classes that share one data layout -, mode counts or dimensions). The object is written with to_file into a "
-        "per-process scratch directory and read with from_file. Oracle: round trip - if writing returns, reading must return the same "
+        "per-process scratch directory (in half of the cases over the file left by the previous case) and read with from_file. Oracle: round trip - if writing returns, reading must return the same "
         "lengths, classes, byte-identical records, equal times in order, and library equality; if writing raises the case counts as "
         "'write refused'. Non-trivial = at least one droplet and (>= 2 members/droplets, an empty member, a None width, a perturbed "
         "class or dim != 2); distinct = distinct spec hash."
@@ -185,7 +193,8 @@ class C08(Property):
         ctx.nontrivial = ndrops >= 1 and (ndrops >= 2 or empty_member or has_none or spec["cls"].startswith("Perturbed") or spec["dim"] != 2)
         before, tbefore = records(obj, kind)
         path = self._path()
-        if os.path.exists(path):
+        # the file of the previous case is deliberately left in place: writing to an existing path must replace its content
+        if os.path.exists(path) and ctx_hash_even(spec):
             os.remove(path)
         try:
             if spec.get("info") is not None and kind != "Emulsion":
